@@ -462,7 +462,17 @@ def stepPar (judge : St → Hub → Op → ImplOut → String) (st : St) (subs :
   | some ops =>
     let impl := parseImpl implToks
     let implT := (implToks.find? (hasPrefix "T=")).getD ""
-    let runs := (perms ops).reverse.map fun p =>
+    -- registrations are tried in the order of the session ids the implementation handed out (rejected
+    -- ones last); short lists are tried in every order as well
+    let rank (op : Op) : Nat := match op with
+      | .hello c _ _ _ _ _ =>
+        (match (digestFind impl.digest "cs").find? (fun t => t[1]? == some s!"c{c}") with
+         | some t => (match t[2]? with | some sm => ((dropS 1 sm).toNat?).getD 1000000 | none => 1000000)
+         | none => 1000000)
+      | _ => 1000000
+    let sorted := (ops.toArray.qsort (fun a b => rank a < rank b)).toList
+    let cands := [sorted] ++ (if ops.length ≤ 3 then (perms ops).reverse else [ops])
+    let runs := cands.map fun p =>
       p.foldl (fun (hs : Hub × Seen) op => ((SigModel.Hub.step hs.1 op).1, hs.2.observe hs.1 op)) (st.hub, st.seen)
     let pick := match runs.find? (fun hs => showState hs.1 hs.2 == implT) with
       | some hs => hs
